@@ -1107,10 +1107,14 @@ func (o *Oracle) onNodePanic(inc *Inc, p simrt.PanicInfo) {
 		w.stats.probe("panic_on_store_error")
 		return
 	}
-	v := w.violate("C11", "C11/panic-missing-log", "%s panicked: %s", inc.tag, msg)
-	if !strings.Contains(msg, "log not found") {
-		v.Class = "X/unexpected-panic"
-		v.Property = "X"
+	var v *Violation
+	switch {
+	case strings.Contains(msg, "log not found"):
+		v = w.violate("C11", "C11/panic-missing-log", "%s panicked: %s", inc.tag, msg)
+	case strings.Contains(msg, "shutdown"):
+		v = w.violate("C17", "C17/panic-on-shutdown-race", "%s panicked: %s", inc.tag, msg)
+	default:
+		v = w.violate("X", "X/unexpected-panic", "%s panicked: %s", inc.tag, msg)
 	}
 	v.Facts["stack"] = p.Stack
 }
